@@ -91,6 +91,18 @@ add("C05", "tds-sim", "exploration",
     "Not claimed: combinations of dynamic models that no stock case contains (pure input generation). Trusted: limiter flags zl/zu as the "
     "precondition; zero-time-constant states are excluded from the drift measure.", "DESIGN.md section 4, C05")
 
+add("C09", "tds-sim", "exploration",
+    "deterministic simulation: limiter monitors and call-by-call reference shadows of history components in runs with forced step rejections (real rewinds); seeded stand-alone component histories with repeats and rewinds; enumerated flag algebra",
+    "In seeded runs that drive limiters (stock disturbances, bus faults near machines, load switching) with solver-forced rejections, every "
+    "anti-windup state must stay inside its (possibly voltage-dependent) limits at every stored instant, held states must have a zero stored "
+    "derivative, every limiter's flags must be one-hot and agree with the comparison of its input away from the boundary, and each "
+    "Delay/Average/Derivative instance of the system is shadowed call by call by a textbook reference fed the same (time, input) sequence, "
+    "including real rewinds. Stand-alone, every discrete class is driven by seeded call sequences with repeated, irregular and rewound time "
+    "stamps, equality, one-sided and sign-flipped limits; the flag algebra is enumerated over all orderings on a small grid.",
+    "Trusted: clamp tolerance 50*tol*(1+|limit|); comparison consistency is not judged within 20*tol of a limit, right after an event, a "
+    "rejected attempt or a chatter-accepted step (flags are one Newton iteration old). SortedLimiter latches by design and is only judged on its "
+    "first evaluation; Sampling only for membership of its output among sampled inputs.", "DESIGN.md section 4, C09")
+
 ENGINES = [
     {"name": "tds-sim", "path": "dst/tdssim.py", "kind_free_text": "real TDS loop under StepTap/SolverTap/TimerTap/StoreTap/ConnTap "
      "seams with seeded plans (events, segments, restarts, solver/disk/clock faults, crash points)", "serves_properties": []},
